@@ -14,7 +14,9 @@ def run_schedule(pre, prog, choices, env=None, horizon=3000, block_ms=25, dead_m
     rp = os.path.join(WORK, "rep-%d.json" % os.getpid())
     if os.path.exists(rp):
         os.remove(rp)
-    steps = [pre, {"op": "sched_arm", "choices": choices, "report_path": rp, "horizon": horizon, "block_ms": block_ms, "dead_ms": dead_ms}, prog, {"op": "sched_report"}]
+    # the collection plan is switched on without any forced collection: it only arms the use-of-reclaimed-slot counter of hook H4
+    steps = [pre, {"op": "gcplan", "on": True}, {"op": "sched_arm", "choices": choices, "report_path": rp, "horizon": horizon, "block_ms": block_ms, "dead_ms": dead_ms}, prog,
+             {"op": "sched_report"}, {"op": "counters"}]
     r = common.run_cases([{"id": 0, "steps": steps}], env=env, batch=1, timeout_ms=timeout_ms)[0]
     rep = None
     if os.path.exists(rp):
@@ -23,11 +25,12 @@ def run_schedule(pre, prog, choices, env=None, horizon=3000, block_ms=25, dead_m
         except Exception:
             rep = None
         os.remove(rp)
-    elif r["exit"] == "normal" and len(r["steps"]) == 4:
-        rep = r["steps"][3]["v"][0]
+    elif r["exit"] == "normal" and len(r["steps"]) == 6:
+        rep = r["steps"][4]["v"][0]
+        rep["freed_slot_uses"] = r["steps"][5]["v"][0]
     val = None
-    if r["exit"] == "normal" and len(r["steps"]) >= 3:
-        st = r["steps"][2]
+    if r["exit"] == "normal" and len(r["steps"]) >= 4:
+        st = r["steps"][3]
         val = st["v"][-1] if st["s"] == "ok" and st["v"] else ("ERR:" + st.get("m", "")[:160] if st["s"] == "err" else "PANIC:" + st.get("m", "")[:160])
     return val, rep, r["exit"]
 
